@@ -39,6 +39,13 @@ impl TranspositionTable {
     }
 }
 
+#[cfg(flounder_verif)]
+impl TranspositionTable {
+    pub fn verif_len(&self) -> usize {
+        self.table.len()
+    }
+}
+
 #[derive(Copy, Clone, Debug, PartialEq)]
 pub struct Entry {
     pub hash_key: u64,
